@@ -114,9 +114,10 @@ func c08Scenarios(tier string) []*Scenario {
 		twoClosers       bool
 		deriver          bool // a goroutine derives scopes from an open subscope while Close runs (2 registry shards)
 		shards           uint // registry shards (0: one); the root is visited once per shard by a pass
+		otherRoot        bool // an unrelated root scope of the same process runs a report pass meanwhile
 	}
 	vs := []variant{{cached: true, closable: true, interval: 1e9}, {interval: 1e9}, {cached: true, closable: true, interval: 1e9, twoClosers: true},
-		{interval: 0, deriver: true}, {cached: true, interval: 1e9, shards: 3}}
+		{interval: 0, deriver: true}, {cached: true, interval: 1e9, shards: 3}, {interval: 0, otherRoot: true}}
 	if tier == "thorough" {
 		vs = append(vs, variant{cached: true, interval: 1e9}, variant{closable: true, interval: 1e9}, variant{cached: true, closable: true}, variant{},
 			variant{twoClosers: true}, variant{closable: true, interval: 1e9, twoClosers: true}, variant{cached: true, interval: 1e9, deriver: true},
@@ -133,6 +134,9 @@ func c08Scenarios(tier string) []*Scenario {
 		}
 		if v.shards > 1 {
 			name += fmt.Sprintf("-shards=%d", v.shards)
+		}
+		if v.otherRoot {
+			name += "-other-root-reporting"
 		}
 		out = append(out, &Scenario{
 			Property: "C08", Name: name, Ticks: tierInt(tier, 1, 2),
@@ -166,6 +170,16 @@ func c08Scenarios(tier string) []*Scenario {
 						rec.Mark("closeB-returned")
 					})
 				}
+				var oth *rt.Thread
+				if v.otherRoot {
+					// (whatever the two roots share - package-level pools, caches - must not let one disturb the other)
+					rec2 := &Recorder{}
+					root2, _ := tally.VerifNewRootScope(scopeOpts(rec2, v.cached, false), 0, 1)
+					root2.Tagged(map[string]string{"o": "1"}).Counter("oc").Inc(5)
+					root2.SubScope("oy").Counter("oc").Inc(6)
+					root2.Counter("oc").Inc(7)
+					oth = rt.GoNamed("other-root-pass", func() { tally.VerifReportOnce(root2) })
+				}
 				var derived []tally.Scope
 				var dth *rt.Thread
 				if v.deriver {
@@ -191,6 +205,9 @@ func c08Scenarios(tier string) []*Scenario {
 				if other != nil {
 					other.Join()
 					x.Vals["errB"] = errB
+				}
+				if oth != nil {
+					oth.Join()
 				}
 				x.Vals["err2"] = closer.Close()
 				t := root.Tagged(map[string]string{"z": "1"})
